@@ -241,3 +241,6 @@ def run(ctx):
         ctx.guarded(r, XC.check_call_helpers, kind)
         ctx.guarded(r, XC.check_branches, kind)
         ctx.guarded(r, XC.check_frame, kind)
+    r = ctx.rule("R6c", "aarch64: the fixed save slots end below the first spill slot and do not overlap", 4)
+    for kind in X64.KINDS:
+        ctx.guarded(r, XC.check_fixed_area, kind)
